@@ -132,6 +132,15 @@ def refill_from(cfgp, data):
     return {"cfg": cfgp, "ev": [e], "script": [["refill", data]], "data": data}
 
 
+def big_refill(seed, n, d, ub):
+    """the same relation on a sample of a size real reference sets have (tens of thousands of rows up to a few hundred thousand), drawn from `seed`"""
+    rs = np.random.RandomState(seed)
+    a = np.round(rs.normal(0, 1, size=(n, d)) * rs.choice([1.0, 100.0]), 3)
+    t = refill_from({"ub": ub, "lbnum": 1, "lbden": 1024}, a)
+    t["data"], t["script"] = {"seed": seed, "n": n, "d": d}, [["refill", "big", seed, n, d]]
+    return t
+
+
 def random_points(rng, n, d, style):
     if style == "grid":
         return [[rng.randint(0, 7) for _ in range(d)] for _ in range(n)]
